@@ -106,6 +106,12 @@ impl RitiContext {
             .borrow_mut()
             .verif_set_composition(buffer, typed, pending_kar)
     }
+
+    /// `(buffer, typed, pending_kar)` of the fixed method (`None` for the phonetic method);
+    /// the same values `verif_snapshot(0)` renders, without going through JSON.
+    pub fn verif_fixed_state(&self) -> Option<(String, String, u8)> {
+        self.method.borrow().verif_fixed_state()
+    }
 }
 
 pub(crate) trait Method {
@@ -129,6 +135,11 @@ pub(crate) trait Method {
     #[cfg(feature = "verif")]
     fn verif_set_composition(&mut self, _buffer: &str, _typed: &str, _pending_kar: u8) -> bool {
         false
+    }
+    /// Verification hook: the composition state of the fixed method without JSON rendering.
+    #[cfg(feature = "verif")]
+    fn verif_fixed_state(&self) -> Option<(String, String, u8)> {
+        None
     }
 }
 
